@@ -19,6 +19,7 @@
 -/
 import GriddleModel.Iter
 import GriddleModel.Lemmas.Kernel
+import GriddleModel.Props.C08
 namespace Griddle.C08
 
 open It
@@ -134,7 +135,7 @@ theorem RIt.run_spec : ∀ (n : Nat) (i : RIt), RIt.Agrees i →
       refine ⟨j, ?_, hja, by rw [hjall, ha]; simp⟩
       unfold It.RIt.run
       rw [RIt.next_done h ha]; dsimp only; rw [hj, hsz, ha]
-      simp [List.range_succ_eq_map]
+      simp [List.range_succ_eq_map, Function.comp_def]
     | cons y ys =>
       obtain ⟨i', hn, hi', hall'⟩ := RIt.next_some h ha
       obtain ⟨j, hj, hja, hjall⟩ := ih i' hi'
@@ -249,7 +250,7 @@ theorem DIt.run_spec : ∀ (n : Nat) (i : DIt), DIt.Agrees i →
       refine ⟨j, ?_, hja, by rw [hjall, hall']; simp⟩
       unfold It.DIt.run
       rw [hn]; dsimp only; rw [hj, hsz, ha, hall']
-      simp [List.range_succ_eq_map]
+      simp [List.range_succ_eq_map, Function.comp_def]
     | cons y ys =>
       obtain ⟨i', hn, hi', hall'⟩ := DIt.next_some h ha
       obtain ⟨j, hj, hja, hjall⟩ := ih i' hi'
@@ -335,6 +336,81 @@ theorem drain_every_step {R : Nat} (m : Map) (mainOrder : List Entry) (h : Inv R
     unfold Raw.len
     cases m.lo <;> simp [hlen, Nat.add_comm]
   rw [this]
+
+/-- **the whole-call description and the step machine say the same**: for a visiting order of the admissible shape,
+    what `Map.iter` returns is the main table in that order followed by the old table in cursor order — the sequence
+    `iter_every_step` shows the machine to hand out -/
+theorem iter_seq_eq_machine {R : Nat} (m : Map) (order : List Nat) (h : Inv R m)
+    (hok : Map.iterOrderOk m order = true) :
+    order.filterMap (fun k => (m.find k).map (·.2))
+      = It.mainInOrder m (order.take m.main.ents.length) ++ (match m.lo with | some o => o.ents | none => []) := by
+  unfold Map.iterOrderOk at hok
+  simp only [Bool.and_eq_true, decide_eq_true_eq, List.all_eq_true] at hok
+  obtain ⟨⟨⟨hlen, hnd⟩, hall⟩, hold⟩ := hok
+  have hsplit : order = order.take m.main.ents.length ++ order.drop m.main.ents.length :=
+    (List.take_append_drop _ _).symm
+  conv_lhs => rw [hsplit, List.filterMap_append]
+  have hmain : (order.take m.main.ents.length).filterMap (fun k => (m.find k).map (·.2))
+      = It.mainInOrder m (order.take m.main.ents.length) := by
+    unfold It.mainInOrder
+    apply List.filterMap_congr
+    intro k hk
+    have := hall k hk
+    unfold Raw.find
+    unfold HB.find? at this ⊢
+    cases hf : m.main.ents.find? (fun e => e.k == k) with
+    | none => rw [hf] at this; cases this
+    | some x => simp
+  rw [hmain]
+  congr 1
+  cases hlo : m.lo with
+  | none =>
+    simp only [hlo] at hold
+    rw [hold]
+    rfl
+  | some o =>
+    simp only [hlo] at hold
+    have hag := h.agree o hlo
+    rw [hag, List.take_length] at hold
+    rw [hold]
+    have : (o.ents.map (·.k)).filterMap (fun k => (m.find k).map (·.2))
+        = (keysOf o.ents).filterMap (fun k => o.ents.find? (fun e => e.k == k)) := by
+      apply List.filterMap_congr
+      intro k hk
+      have hnot : m.main.ents.find? (fun e => e.k == k) = none := by
+        rw [find_key_none]; intro hm; exact h.disjoint hlo hm hk
+      unfold Raw.find HB.find?
+      simp only [hnot, hlo]
+      cases o.ents.find? (fun e => e.k == k) <;> rfl
+    rw [this, filterMap_find_keys (h.old_nodup hlo)]
+
+/-- … so pulling the machine `len()` times yields exactly what `Map.iter` returns, with an exact hint before every pull -/
+theorem iter_machine_yields_iter {R : Nat} (m : Map) (o : Orc) (h : Inv R m) (hok : Map.iterOrderOk m o.calls = true) :
+    ∃ hs ys j, It.RIt.run m.len (It.RIt.ofMap m (It.mainInOrder m (o.calls.take m.main.ents.length))) = .ok (hs, ys, j) ∧
+      Map.iter m o = .ok { ret := .ents (ys.map (·.1)) } ∧
+      hs = (List.range m.len).map (fun k => (m.len - k, some (m.len - k))) := by
+  have hlenMain : (It.mainInOrder m (o.calls.take m.main.ents.length)).length = m.main.ents.length := by
+    have hp := iter_seq_eq_machine m o.calls h hok
+    have hperm := iter_perm m o.calls h hok
+    have h1 := hperm.length_eq
+    rw [hp] at h1
+    simp only [List.length_append, Raw.ents] at h1
+    cases hlo : m.lo <;> simp only [hlo] at h1 <;> omega
+  obtain ⟨j, hj⟩ := iter_every_step m _ h hlenMain m.len
+  have hall : ((It.mainInOrder m (o.calls.take m.main.ents.length)).map (fun e => (e, true)) ++
+      (match m.lo with | some o => o.ents.map (fun e => (e, false)) | none => [])).length = m.len := by
+    unfold Raw.len
+    cases m.lo <;> simp [hlenMain]
+  rw [List.take_of_length_le (Nat.le_of_eq hall)] at hj
+  refine ⟨_, _, j, hj, ?_, rfl⟩
+  unfold Map.iter
+  simp only [hok, Bool.not_true, Bool.false_eq_true, if_false]
+  rw [iter_seq_eq_machine m o.calls h hok]
+  have hfst : ((It.mainInOrder m (o.calls.take m.main.ents.length)).map (fun e => (e, true)) ++
+      (match m.lo with | some o => o.ents.map (fun e => (e, false)) | none => [])).map (·.1)
+      = It.mainInOrder m (o.calls.take m.main.ents.length) ++ (match m.lo with | some o => o.ents | none => []) := by
+    cases m.lo <;> simp [Function.comp_def]
+  rw [hfst]
 
 /-- non-vacuity of the fault: a cursor claiming 2 elements over an old table that holds 1 makes the second
     pull of the old table an over-read — the machine says so — while the agreeing cursor runs clean -/
